@@ -55,10 +55,17 @@ type mbSpec struct {
 	kind  mbKind
 	cap   int
 	nprio int
+	ident []int // producer -> sender identity (several goroutines may share one, e.g. NoSender)
 }
 
 func (s mbSpec) prio(v int) int   { return (v % 100) % s.nprio }
-func (s mbSpec) sender(v int) int { return (v / 100) % 10 }
+func (s mbSpec) sender(v int) int {
+	p := (v / 100) % 10
+	if p < len(s.ident) {
+		return s.ident[p]
+	}
+	return p
+}
 
 // model state: values in arrival order, encoded as a string of runes.
 func (s mbSpec) model(relaxEmpty, relaxFull bool) porcupine.Model {
@@ -186,9 +193,16 @@ func c04Run(c *Ctx) {
 	c.Note("mailboxes", nmb)
 	c.Note("producer_target", target)
 	senders := make([]*actor.PID, np)
+	spec.ident = make([]int, np)
+	share := c.W.Draw(3) == 2 // goroutines sharing one sender identity (what NoSender callers do)
 	for p := range senders {
-		senders[p] = actor.VerifFakePID(fmt.Sprintf("s%d", p))
+		spec.ident[p] = p
+		if share {
+			spec.ident[p] = c.W.Draw(2)
+		}
+		senders[p] = actor.VerifFakePID(fmt.Sprintf("s%d", spec.ident[p]))
 	}
+	c.Note("sender_identity", spec.ident)
 	hist := make([][]porcupine.Operation, nmb)
 	accepted := make([]int, nmb)
 	dequeued := make([]int, nmb)
